@@ -49,7 +49,11 @@ Inductive obs :=
    does not exist; the answer's class and how many of the n keys are stored afterwards.  The keys are not printed. *)
 Inductive c11_case :=
 | mk_c11 (c_eng : eng) (c_steps : list (sop * obs)) (c_final : store)
-| KBigBatch (e : eng) (n keylen : N) (failing : bool) (c : rclass) (visible : N).
+| KBigBatch (e : eng) (n keylen : N) (failing : bool) (c : rclass) (visible : N)
+(* KWrapFault: the metrics wrapper over an engine that fails one call (0 Get, 1 Del, 2 DelCurrent, 3 Commit, 4 Iter)
+   with an error of class `injected`; the class the wrapper's caller sees, and whether the stored record is still
+   there afterwards.  The wrapper model is a pass-through: the error must arrive unchanged in class. *)
+| KWrapFault (kind : N) (injected observed : rclass) (intact : bool).
 
 (* ---------- running a sequence on an adapter model ---------- *)
 
@@ -145,6 +149,7 @@ Definition c11_check (c : c11_case) : bool :=
       let '(sf, obs) := a_run A (a_init A) None (map fst steps) in
       list_eqb obs_eqb obs (map snd steps) && store_eqb (a_dump A sf) final
   | KBigBatch _ n _ failing c visible => big_check failing n c visible
+  | KWrapFault _ injected observed intact => rclass_eqb observed injected && intact
   end.
 
 (* ---------- the property: the observation against the contract, under the C11 projection ---------- *)
@@ -275,4 +280,5 @@ Definition c11_oracle (c : c11_case) : option N :=
       | inr code => Some code
       end
   | KBigBatch _ n _ failing c visible => big_oracle failing n c visible
+  | KWrapFault _ injected observed intact => ok_if (rclass_eqb observed injected && intact)
   end.
